@@ -30,7 +30,8 @@ theorem truncation_gate (flags : Nat) : rrset_truncated (flags_tc flags) = flags
 /-- gate 3: `response_code != RCode::NOERROR` on the (possibly OPT-extended) code: the model's `rcode ≠ 0` -/
 theorem rcode_gate (p : Prefix) : (rrset_bad_rcode p.rcode = true) ↔ p.rcode ≠ 0 := by
   unfold rrset_bad_rcode RCODE_NOERROR
-  simp
+  generalize p.rcode = r
+  constructor <;> intro h <;> simp_all <;> omega
 
 /-- a data record joins the set iff owner, type AND class match — the test of `extractRRSet` -/
 theorem record_match (eq : Bool) (rtype code rclass qclass : Nat) :
@@ -55,7 +56,7 @@ theorem ttl_and_found (ttl rttl : Nat) (rd : List RData) :
 /-- the OPT search stops at TYPE 41 -/
 theorem opt_test (rtype : Nat) : (rrset_is_opt rtype = true) ↔ rtype = TYPE_OPT := by
   unfold rrset_is_opt
-  simp
+  constructor <;> intro h <;> simp_all <;> omega
 
 /-- one step of the model's `extractRRSet`, written with the regenerated tests -/
 theorem extract_step_is_model (msg : Bytes) (t : RType) (r : Reader) (name hn : Cur) (m : Marker) (rclass : Nat)
